@@ -14,7 +14,8 @@ class UtilsStub:
     logger = NoopLogger()
 
 
-def _unit(relpath, cls, route_key, decoder):
+def _unit(relpath, cls, route_key, decoder, P=P, second=None):
+    """second: name of a second per-route value list the getter rounds the same way ("slacks" of the k-MPE models), read through a second get_values call"""
     def mk(wt):
         def h(c, f):
             class Me(Tracked):
@@ -23,6 +24,7 @@ def _unit(relpath, cls, route_key, decoder):
             k = c.fresh_const("k", INT)
             c.assume(k >= 1)
             W = z3.Function("weight_value", INT, REAL)
+            S2 = z3.Function("second_value", INT, REAL)
             me.k = Sym(k)
             me._solution = None
             me.check_is_solved = lambda: None
@@ -31,6 +33,10 @@ def _unit(relpath, cls, route_key, decoder):
             me.weight_type = BUILTINS[wt.__name__]      # the function's globals bind int/float to the proxy-aware versions: use the same objects
             me.flow_attr_origin = "edge"
             me.path_weights_vars = "PWV"
+            me.path_slacks_vars = "PSV"
+            me.edge_errors_vars = "EEV"
+            me.edge_indexes_basic = []            # the per-edge error loop runs over no element here: its rounding is the objective contracts' business (C07)
+            me.path_length_factors = []
             me.path_weights_sol = None
             routes = SymSeq.fresh("routes", SInt, n=k)
             setattr(me, decoder, lambda: routes)
@@ -39,7 +45,10 @@ def _unit(relpath, cls, route_key, decoder):
 
             class Solver:
                 def get_values(self, vs, **kw):
-                    return SymMap(SInt, SReal, lambda key: z3.And(lift(key) >= 0, lift(key) < k), lambda key: Sym(W(lift(key))), "weights_sol")
+                    if vs == "EEV":
+                        return {}
+                    fn = W if vs == "PWV" else S2
+                    return SymMap(SInt, SReal, lambda key: z3.And(lift(key) >= 0, lift(key) < k), lambda key: Sym(fn(lift(key))), "weights_sol" if vs == "PWV" else "second_sol")
             me.solver = Solver()
             sol = f(me, False)
             ws = sol["weights"]
@@ -54,6 +63,16 @@ def _unit(relpath, cls, route_key, decoder):
                 c.prove("post:int-weights-within-one-half-of-the-solver-value", z3.Implies(guard, z3.And(z3.ToReal(wj) - W(j) <= z3.RealVal("1/2"), W(j) - z3.ToReal(wj) <= z3.RealVal("1/2"))), prop=P)      # j is an arbitrary (Skolem) index
             else:
                 c.prove("post:float-weights-are-the-solver-values", z3.And(z3.BoolVal(wj.sort() == REAL), z3.Implies(guard, wj == W(j))), prop=P)
+            if second:
+                ss = sol[second]
+                ss = ss if isinstance(ss, SymSeq) else ss.to_seq()
+                with c.quantified(guard):
+                    sj = lift(ss._at(j))
+                c.prove("post:one-%s-entry-per-route" % second, ss.n == k, prop=P)
+                if wt is int:
+                    c.prove("post:int-%s-within-one-half-of-the-solver-value" % second, z3.And(z3.BoolVal(sj.sort() == INT), z3.Implies(guard, z3.And(z3.ToReal(sj) - S2(j) <= z3.RealVal("1/2"), S2(j) - z3.ToReal(sj) <= z3.RealVal("1/2")))), prop=P)
+                else:
+                    c.prove("post:float-%s-are-the-solver-values" % second, z3.And(z3.BoolVal(sj.sort() == REAL), z3.Implies(guard, sj == S2(j))), prop=P)
         return Unit(relpath, cls + ".get_solution", h, globs=dict(utils=UtilsStub), props=[P], name="%s:%s.get_solution[weight_type=%s]" % (relpath, cls, wt.__name__),
                     callee_contracts=["SolverWrapper.get_values (C12)", decoder + " (C01/C14)"], assumptions=["A3 round(x) is an integer within 1/2 of x"])
     return [mk(int), mk(float)]
@@ -133,6 +152,19 @@ def u_check_flow_conservation():
     return Unit("flowpaths/utils/graphutils.py", "check_flow_conservation", h, globs=dict(utils=UtilsStub), loops=loops, props=[P, "C19"], replay=replay_flow_conservation,
                 assumptions=["A2 networkx out_edges/in_edges enumerate exactly the incident edges; degrees are their counts",
                              "edge values are treated as mathematical reals (float rounding of the sums is outside the encoding)"])
+
+
+def error_model_units():
+    """the same getter contract for the k-LAE / k-MPE models (weights; slacks for k-MPE)"""
+    out = []
+    for rel, cls, rk, dec, prop, second in (("flowpaths/kleastabserrors.py", "kLeastAbsErrors", "paths", "get_solution_paths", "C07", None),
+                                            ("flowpaths/kleastabserrorscycles.py", "kLeastAbsErrorsCycles", "walks", "get_solution_walks", "C07", None),
+                                            ("flowpaths/kminpatherror.py", "kMinPathError", "paths", "get_solution_paths", "C08", "slacks"),
+                                            ("flowpaths/kminpatherrorcycles.py", "kMinPathErrorCycles", "walks", "get_solution_walks", "C08", "slacks")):
+        for u in _unit(rel, cls, rk, dec, P=prop, second=second):
+            u.props = [prop]
+            out.append(u)
+    return out
 
 
 def all_units():
